@@ -26,9 +26,10 @@
                    DecodeTime    the timestamp descriptor.
                  Integer <-> float fallbacks, inexact float32 narrowing and DecodeBytes on
                  an array are C07's / off the round-trip path: Err EUnsupported.
-     leaf_ok   = under SignedInteger (read by DecodeNaked only) an unsigned >= 2^63 comes
-                 back from DecodeNaked as a negative int64: excluded (the byte-level
-                 statement goes through DecodeNaked's item).  Nothing else: every float32
+     leaf_ok   = under SignedInteger (read by DecodeNaked only) an unsigned >= 2^63 makes
+                 DecodeNaked report an overflow (since the F07-1n repair; W_binc_dec_enc_
+                 signed_overflow): excluded (the byte-level statement goes through
+                 DecodeNaked's item); [wfb] / [wfbb] carry the same guard.  Nothing else: every float32
                  NaN comes back as THE NaN, which is the documented loss. *)
 From Coq Require Import List NArith ZArith Bool Lia.
 From Coq Require Import ZifyN ZifyNat ZifyBool.
@@ -259,7 +260,7 @@ Section W.
   Fixpoint wfbb (i : item) : bool :=
     match i with
     | IInt z => ((- 2 ^ 63 <=? z) && (z <? 2 ^ 63))%Z
-    | IUint n => (n <? 2 ^ 64)%N
+    | IUint n => (n <? 2 ^ 64)%N && (negb (B.signedInt d) || (n <? 2 ^ 63)%N)
     | IF32 b => (b <? 2 ^ 32)%N
     | IF64 b => (b <? 2 ^ 64)%N
     | IStr s => blenokb s
@@ -280,7 +281,8 @@ Section W.
   Proof.
     induction i using item_ind'; intro Hb; cbn [wfbb B.wfb] in *; try exact I; try discriminate.
     - apply andb_true_iff in Hb. destruct Hb as [H1 H2]. apply Z.leb_le in H1. apply Z.ltb_lt in H2. lia.
-    - apply N.ltb_lt in Hb. exact Hb.
+    - apply andb_true_iff in Hb. destruct Hb as [H1 H2]. apply N.ltb_lt in H1. split; [exact H1|].
+      intro Hs. rewrite Hs in H2. cbn [negb orb] in H2. apply N.ltb_lt in H2. exact H2.
     - apply N.ltb_lt in Hb. exact Hb.
     - apply N.ltb_lt in Hb. exact Hb.
     - apply blenokb_ok. exact Hb.
